@@ -2823,7 +2823,8 @@ def groupby_reduce(
     #     The only way to do this consistently is mask out using min_count
     #     Consider np.sum([np.nan]) = np.nan, np.nansum([np.nan]) = 0
     if min_count is None:
-        if nax < by_.ndim or (fill_value is not None and provided_expected):
+        # (several groupers span the product of their labels: combinations that never occur are absent slots too)
+        if nax < by_.ndim or (fill_value is not None and (provided_expected or nby > 1)):
             min_count_: int = 1
         else:
             min_count_ = 0
